@@ -105,12 +105,13 @@ func genSchedSpec(p *schedParams, c *Corpus, run int, cold bool) *RunSpec {
 			k = 1
 		}
 		var ops []Op
+		reuseW := ro.Split("reuse").Chance(1, 5) // this caller reads all its documents into one reused buffer
 		for j := 0; j < k; j++ {
 			d := ro.Intn(len(docs))
 			if j == 0 && i < len(docs) && ro.Chance(3, 4) {
 				d = i // own document; otherwise the same slice as somebody else
 			}
-			op := Op{Doc: d, Stack: genStack(ro), Ctx: ro.Chance(4, 5), Reader: ro.Chance(3, 4)}
+			op := Op{Doc: d, Stack: genStack(ro), Ctx: ro.Chance(4, 5), Reader: ro.Chance(3, 4), Reuse: reuseW}
 			x := ro.Intn(100)
 			switch {
 			case c15 && x < 50:
